@@ -267,6 +267,14 @@ func (inv *Invoice) Calculate() error {
 		inv.SetRegime(partyTaxCountry(inv.Supplier))
 	}
 
+	// The customer-rates tag moves every tax combo to the customer's country.
+	// Do it before the normalisers run: some of them (e.g. pt-saft) derive
+	// extensions from the combo's country, and would otherwise only see it on
+	// the next calculation.
+	if inv.HasTags(tax.TagCustomerRates) {
+		applyCustomerRates(inv)
+	}
+
 	inv.Normalize(tax.ExtractNormalizers(inv))
 
 	if err := calculate(inv); err != nil {
